@@ -1268,6 +1268,9 @@ def c12(tier, replay):
                         ("one enum", "enum E { E_a = 1 };\n"), ("one typedef", "typedef u8 T;\n"),
                         ("typedef of typedef", "typedef u16 T;\ntypedef T TT;\nstruct X { TT a; };\n"),
                         # one-letter names: the generated C++ uses E and T as template parameter names
+                        ("line comment at end of file without newline", "struct A { u8 x; };\n// the end"),
+                        ("block comment at end of file", "struct A { u8 x; };\n/* the end */"),
+                        ("no newline at all", "struct A { u8 x; };"),
                         ("struct named E", "struct E { u32 a; };\nstruct X { E e; u8 b; };\n"),
                         ("struct named T", "struct T { u32 a; };\nstruct X { T t<>; };\n"),
                         ("enum named E", "enum E { E_a = 1 };\nstruct X { E e; };\n")):
